@@ -25,6 +25,8 @@ def run(chk):
     chk.rule("LAYOUT.header", "the first stored element is the expression passed to new T[...]")
     chk.rule("LAYOUT.z-codec", "USINGZ: every store of pt.z into an array slot is Reinterpret<element type>(pt.z) (or a same-type copy) and every load "
              "of a slot into z is Reinterpret<z_type>(slot) (or a same-type copy): the slot carries Z bit for bit in both directions")
+    chk.rule("ROUND", "the export converters (and every scaling helper) hand doubles to Point64's rounding constructor; none converts to int64 with a "
+             "bare cast (the native calls round, so truncation would differ by one unit)")
     chk.rule("FORWARD.param", "each exported parameter reaches the native parameter of its meaning (by declaration name), none of another meaning")
     chk.rule("FORWARD.output", "each output parameter is assigned a marshalled result")
     chk.rule("SCALE.wrapper", "dimensional analysis of the D exports: S^1 at every integer-API length argument, S^0 at the return")
@@ -39,6 +41,7 @@ def run(chk):
                 from ..extract import AnalysisBroken
                 raise AnalysisBroken("LAYOUT.z-codec: only %d Z-slot accesses recognised in clipper.export.h (configuration %s)" % (nz, cfg))
         e8.rule_wrappers(db, chk, cfg, only=lambda f: f.file.endswith("clipper.export.h"))
+        e8.rule_rounding(db, chk, cfg)
     n = len(cfgs)
     chk.floor("LAYOUT.paths", 8 * n)
     chk.floor("LAYOUT.path", 3 * n)
